@@ -2,6 +2,11 @@ package verifsim
 
 import (
 	"bytes"
+	"crypto/aes"
+	"crypto/cipher"
+	"encoding/base64"
+	"encoding/binary"
+	"encoding/hex"
 	"fmt"
 	"math/rand/v2"
 	"time"
@@ -60,7 +65,7 @@ func genC07Random(g *Gen) any {
 	sc.Client = ClientParams{Method: []string{"shadowsocks", "openvpn", "a", "twelve-chars"}[g.Rng.IntN(4)], Encryption: []string{"plain", "aes-gcm", "aes-128-gcm", "chacha20-poly1305"}[g.Rng.IntN(4)],
 		Browser: c07Browsers[g.Rng.IntN(3)], Transport: "direct", NumConn: 1, SessionID: g.Rng.Uint32(), UDP: g.Bool(0.3)}
 	sc.SrvPhaseMS = int64(g.Int(0, 999))
-	switch g.Int(0, 4) {
+	switch g.Int(0, 5) {
 	case 0: // window edges: timestamps at now +-{179,180,181} s and around
 		edge := int64(g.Pick(-181, -180, -179, 179, 180, 181)) * 1000
 		sc.Client.SkewMS = edge + int64(g.Int(-1500, 1500))
@@ -87,10 +92,42 @@ func genC07Random(g *Gen) any {
 	case 3:
 		sc.Mod = "truncate"
 		sc.N = g.Int(1, 600)
-	default:
+	case 4:
 		sc.Mod = "wrongkey"
+	default:
+		// a peer holding no key at all: a low-order point where the ephemeral key
+		// goes (every private key maps it to the all-zero secret) and the identity
+		// block sealed under that all-zero secret
+		sc.Mod = "keyless"
+		sc.N = g.Int(0, len(c07LowOrder)-1)
 	}
 	return sc
+}
+
+// the u-coordinates below 2^255 on which X25519 yields zero for every scalar
+var c07LowOrder = []string{
+	"0000000000000000000000000000000000000000000000000000000000000000",
+	"0100000000000000000000000000000000000000000000000000000000000000",
+	"e0eb7a7c3b41b8ae1656e3faf19fc46ada098deb9c32b1fd866205165f49b800",
+	"5f9c95bca3508c24b1d0b1559c83ef5b04445cc4581c8e86d8224eddd09f1157",
+	"ecffffffffffffffffffffffffffffffffffffffffffffffffffffffffffff7f",
+	"edffffffffffffffffffffffffffffffffffffffffffffffffffffffffffff7f",
+	"eeffffffffffffffffffffffffffffffffffffffffffffffffffffffffffff7f",
+}
+
+// c07Keyless builds the 32-byte key field and the 64-byte sealed identity block
+// of a peer that knows the UID but neither the server's key nor any other.
+func c07Keyless(which int, p ClientParams, now time.Time) (point, sealed []byte) {
+	point, _ = hex.DecodeString(c07LowOrder[which%len(c07LowOrder)])
+	pt := make([]byte, 48)
+	copy(pt, p.UID)
+	copy(pt[16:28], p.Method)
+	pt[28] = 1
+	binary.BigEndian.PutUint64(pt[29:37], uint64(now.Unix()))
+	binary.BigEndian.PutUint32(pt[37:41], p.SessionID)
+	b, _ := aes.NewCipher(make([]byte, 32))
+	g, _ := cipher.NewGCM(b)
+	return point, g.Seal(nil, point[:12], pt, nil)
 }
 
 type authRanges [][2]int // byte ranges [from,to) that carry the authentication payload
@@ -177,6 +214,16 @@ func runC07(c *Ctx, scAny any) {
 	case "truncate":
 		mod = mod[:max(0, len(mod)-sc.N)]
 		touchedAuth = true // a truncated hello loses its key share (last extension bytes) or is malformed
+	case "keyless":
+		point, sealed := c07Keyless(sc.N, sc.Client, w.Sta.WorldState.Now())
+		if sc.WS {
+			copy(mod[auth[0][0]:auth[0][1]], base64.StdEncoding.EncodeToString(append(point, sealed...)))
+		} else {
+			copy(mod[auth[0][0]:], point)
+			copy(mod[auth[1][0]:], sealed[:32])
+			copy(mod[auth[2][0]:], sealed[32:])
+		}
+		desc = fmt.Sprintf("low-order point %s in place of the ephemeral key, identity block sealed under the all-zero secret", c07LowOrder[sc.N%len(c07LowOrder)])
 	}
 	info, _, aerr := server.AuthFirstPacket(mod, tr, w.Sta)
 	srvNow := w.Sta.WorldState.Now()
@@ -188,6 +235,11 @@ func runC07(c *Ctx, scAny any) {
 		if accepted {
 			c.Fail("auth", "accepted:wrong-server-key", "a packet encrypted to another server's key was accepted")
 		}
+	case sc.Mod == "keyless":
+		if accepted {
+			c.Fail("auth", "accepted:keyless-peer", "a first packet from a peer holding no key was accepted (%s): %+v", desc, info)
+		}
+		c.Probe("keyless_peer")
 	case sc.Mod == "none":
 		if accepted != inWindow {
 			c.Fail("auth", fmt.Sprintf("window:%v", accepted), "timestamp %d, server clock %v (difference %v): accepted=%v, but the timestamp is strictly inside the 180 s window: %v", ts, srvNow.Format("15:04:05.000"), d, accepted, inWindow)
@@ -284,5 +336,10 @@ func genC07UnauthPeers(g *Gen) any {
 	for i := 0; i < n; i++ {
 		sc.Peers = append(sc.Peers, genC09Peer(g, kinds[g.Rng.IntN(len(kinds))]))
 	}
+	if g.Bool(0.5) {
+		// a bystander arriving while the refused peer is handed to a slow target
+		sc.Peers = append(sc.Peers, genC09Peer(g, []string{"http-get", "random", "foreign-hello"}[g.Rng.IntN(3)]))
+	}
+	c09Stagger(g, sc, 0.7)
 	return sc
 }
